@@ -499,6 +499,23 @@ def task_region():
             failures.append(dict(key='region/returns-%s-outside-domain' % r,
                                  what='region(%s, %s) returns %s' % (float(w['t']), float(w['p']), r),
                                  replay=dict(kind='region', t=w['t'], p=w['p'])))
+        # the region named must be one whose equation accepts the state: region 1 -> cowat,
+        # region 2 -> supst return a state (not None) for every (t, p) classified that way
+        if r in (1, 2):
+            fn = I.cowat if r == 1 else I.supst
+            try:
+                out = fn(t, p)
+            except ZeroDivisionError:
+                out = 'division'           # gamma_pi = 0: not decided here (see outside-the-claim list)
+            if out is None:
+                rr, w = _reach_witness(c, dict(t=t.e, p=p.e))
+                c.prove(z3.BoolVal(rr == 'unsat'), 'region %d equation returns a state where region() names it' % r)
+                if rr == 'sat':
+                    failures.append(dict(key='region/%s-none-inside-region-%d' % (fn.__name__, r),
+                                         what='region(%s, %s) is %d but %s returns None' % (float(w['t']), float(w['p']), r, fn.__name__),
+                                         replay=dict(kind='region-eq', t=w['t'], p=w['p'], region=r)))
+                elif rr != 'unsat': c.unknowns.append(dict(label='feasibility of %s returning None inside region %d' % (fn.__name__, r), info=None))
+                return 'returns %s, equation None' % r
         if len(samples) < 2:
             samples.append(dict(clause='region', returned=r, path_condition=[str(k)[:80] for k in c.pc[4:8]], obligation=lab, verdict=rv))
         return 'returns %s' % r
